@@ -104,8 +104,18 @@ class MolecularContainer:
         # make a new configuration to hold the average values
         avr_conformation = ConformationContainer(
             name='average', parameters=parameters, molecular_container=self)
-        container = self.conformations[self.conformation_names[0]]
-        for group in container.get_groups_for_calculations():
+        # every group that is reported in at least one conformation (a group may
+        # be absent from the first one, e.g. an alt-loc point mutant)
+        groups_to_average = []
+        for name in self.conformation_names:
+            for group in (
+                    self.conformations[name].get_groups_for_calculations()):
+                if not any(
+                        seen.atom.residue_label == group.atom.residue_label
+                        and seen.type == group.type
+                        for seen in groups_to_average):
+                    groups_to_average.append(group)
+        for group in groups_to_average:
             # new group to hold average values
             avr_group = group.clone()
             # sum up all groups ...
